@@ -26,16 +26,17 @@ package apierror
 //@ func FromResponse
 //@   property C19
 //@   ensures status != 0 ==> result != nil && typeis(result, "*apierror.Error") && as(result, "*apierror.Error").status == status
-//@   ensures-local status == 0 ==> count("call:New") == 0
+//@   ensures-local status == 0 ==> count("call:apierror.New") == 0
 
 // DecodeError: a message with a status decodes to an API error with that
 // status; without one to a plain error; empty input is no error.
 //@ func DecodeError
 //@   property C19
 //@   ensures len(data) == 0 ==> result == nil
-//@   ensures-local count("call:New") <= 1
-//@   at call New#1: assert arg1 == e.Status && arg1 != 0
+//@   ensures-local count("call:apierror.New") <= 1
+//@   at call apierror.New#1: assert arg1 == e.Status && arg1 != 0
 
 //@ func EncodeError
 //@   property C19
+//@   at call As#1: after assume result ==> apierr != nil
 //@   ensures err == nil ==> result == nil
